@@ -918,6 +918,23 @@ Proof.
   destruct (read_msg csegs) as [[q r]|]; reflexivity.
 Qed.
 
+(* concurrent connections do not interfere: whatever the interleaving, what a connection
+   has received is its own segments in its own order (the frame property of a model in which
+   no state is shared between connections) *)
+Lemma arrive_all_frame l : forall g i, arrive_all g l i = g i ++ own i l.
+Proof.
+  induction l as [|[j s] r IH]; intros g i; cbn [arrive_all own filter map fst].
+  - rewrite app_nil_r. reflexivity.
+  - rewrite IH. unfold arrive, own. destruct (i =? j)%nat eqn:E.
+    + apply Nat.eqb_eq in E. subst j. rewrite Nat.eqb_refl. cbn [map snd]. rewrite <- app_assoc. reflexivity.
+    + rewrite Nat.eqb_sym in E. rewrite E. reflexivity.
+Qed.
+
+Lemma concurrent_raw_no_interference l i k parses reply :
+  dns_model k (arrive_all (fun _ => []) l i) parses reply = dns_model k (own i l) parses reply /\
+  copy_model k (arrive_all (fun _ => []) l i) reply = copy_model k (own i l) reply.
+Proof. rewrite arrive_all_frame. cbn [app]. split; reflexivity. Qed.
+
 Lemma other_address_nothing peeked a segs reply : a = AOtherAddr ->
   copy_model (server_wrap peeked (KOther a)) segs reply = raw_nothing.
 Proof. intros ->. destruct peeked; reflexivity. Qed.
